@@ -274,6 +274,8 @@ spifconf_put_var(spif_charptr_t var, spif_charptr_t val)
                 }
                 spifconf_free_var(v);
             }
+            /* (The list entry has -- or had -- its own copy of the name.  This one is ours to drop.) */
+            FREE(var);
             return;
         } else if (n < 0) {
             break;
@@ -281,6 +283,7 @@ spifconf_put_var(spif_charptr_t var, spif_charptr_t val)
     }
     if (!val) {
         D_CONF(("Empty value given for non-existant variable \"%s\".  Aborting.\n", var));
+        FREE(var);
         return;
     }
     D_CONF(("Inserting new var/val pair between \"%s\" and \"%s\"\n",
